@@ -45,12 +45,31 @@ def observe(payload):
             again = {'err': exn_name(e)}
         out['parse'].append([first, again])
     for a, b in payload['pairs']:
-        ta, tb = build(a), build(b)
+        try:
+            ta = build(a)
+        except Exception as e:        # the generator only pairs parseable specs: report the spec, do not die
+            out['pairs'].append({'err': exn_name(e), 'spec': a})
+            continue
+        try:
+            tb = build(b)
+        except Exception as e:
+            out['pairs'].append({'err': exn_name(e), 'spec': b})
+            continue
         eq = ta == tb
         ne = ta != tb
         assert eq == (not ne)
         out['pairs'].append([bool(eq), bool(ta < tb), bool(tb < ta), hash(ta) == hash(tb)])
     for s in payload['sorts']:
+        bad = None
+        for c in list(s['l']) + list(s['probes']):
+            try:
+                TermId.from_curie(c)
+            except Exception as e:
+                bad = {'err': exn_name(e), 'spec': ['curie', c]}
+                break
+        if bad is not None:
+            out['sorts'].append(bad)
+            continue
         ts = [TermId.from_curie(c) for c in s['l']]
         srt = [t.value for t in sorted(ts)]
         uniq = np.unique(np.array(ts, dtype=object)) if ts else np.array([], dtype=object)
